@@ -137,6 +137,13 @@ KeysStep(e) ==
 
 MouseStep(e) ==
     IF e.ev = "MouseSeq" THEN <<[st EXCEPT !.held = 0], {}>>
+    ELSE IF e.ev = "MouseThen" THEN
+         \* a report at (3,4) followed in the same read by the character z or by a second report at (6,2): a report takes
+         \* its own bytes only
+         <<st, IF Len(e.evs) = 2 /\ e.left = 0 /\ e.evs[1][1] = "mouse" /\ e.evs[1][2] = 2 /\ e.evs[1][3] = 3
+                  /\ (IF e.next = "char" THEN e.evs[2][1] = "key" /\ e.evs[2][3] = 122 /\ e.evs[2][4] = 0
+                      ELSE e.evs[2][1] = "mouse" /\ e.evs[2][2] = 5 /\ e.evs[2][3] = 1)
+               THEN {} ELSE {Dev("C12.count", "report_and_what_follows_it", <<e.form, e.next, e.intro8, e.evs>>)}>>
     ELSE IF e.ev # "Mouse" THEN <<st, {}>>
     ELSE
     LET held0 == IF e.fresh THEN 0 ELSE st.held
